@@ -16,7 +16,7 @@ def toIter (s : St) : Iter := ⟨s.self.slots, s.self.index, s.self.indexBack⟩
 
 /-- value-level context: no destructor panics, the caller's closure returns, `Clone::clone` returns a
     copy of the value it is given (`live` = the remaining elements, in order) -/
-def vctx (n : Nat) (live : List Nat) : Ctx := ⟨n, none, fun _ => false, fun k => live[k]?, fun _ => .done, (0, none)⟩
+def vctx (n : Nat) (live : List Nat) : Ctx := ⟨n, none, fun _ => false, fun k => live[k]?, fun _ => .done, (0, none), {}⟩
 
 def inR : R → IOut
   | .ret (.some (.elem x)) => .item (some x)
